@@ -8625,7 +8625,11 @@ def aten_roll(self: TTensor, shifts: Sequence[int], dims: Sequence[int] = ()) ->
     # NOTE: In pytorch, default value of dims is an empty list.
     if len(dims) == 0:  # Empty sequence
         assert len(shifts) == 1, "shifts should be a single integer if dims is empty"
-        return _aten_roll_shift_no_dim_onnx(self, shifts[0])
+        shift = shifts[0]
+        if all(isinstance(d, int) for d in self.shape) and math.prod(self.shape) > 0:
+            # PyTorch rolls by shift modulo the number of elements
+            shift = shift % math.prod(self.shape)
+        return _aten_roll_shift_no_dim_onnx(self, shift)
     else:
         assert len(shifts) == len(dims)
         result = self
@@ -8634,6 +8638,10 @@ def aten_roll(self: TTensor, shifts: Sequence[int], dims: Sequence[int] = ()) ->
             if dim < 0:
                 # Shape(start=-1, end=0) would be empty; intermediate results have no static shape
                 dim = dim + self_rank
+            size = self.shape[dim]
+            if isinstance(size, int) and size > 0:
+                # PyTorch rolls by shift modulo the size of the dimension
+                shift = shift % size
             result = _aten_roll_shift_and_dim_onnx(result, shift, dim)
         return result
 
